@@ -20,9 +20,9 @@ from fractions import Fraction
 
 from engine import dump, traces
 
-TOL = {'abs': 0.0001, 'pct': '0.001%', 'zero': 0}
-JIT = {'abs': 1e-7, 'pct': 1e-10, 'zero': 0.0}       # tolerance / 1000 (pct: for vectors of norm >= 0.1)
-JIT_TEXT = {'abs': '0.0000001', 'pct': '0.0000000001'}
+TOL = {'abs': 0.0001, 'pct': '0.001%', 'zero': 0, 'tiny': 1e-12}
+JIT = {'abs': 1e-7, 'pct': 1e-10, 'zero': 1e-7, 'tiny': 1e-7}   # tolerance / 1000 (abs, pct); >= 1000 tolerances (zero, tiny)
+JIT_TEXT = {'abs': '0.0000001', 'pct': '0.0000000001', 'zero': '0.0000001', 'tiny': '0.0000001'}
 DEFAULT_POLICY = {'raised': True, 'detail': 'type', 'suppress': False, 'shapeErrors': True}
 DEFAULT_CFG = {'equals': [1, 1], 'proportional': [1, 2], 'offset': [-1, 1], 'linear': [-1, 1]}
 EVALERR_INPUT = '[1,2,3]+[1,2]'
@@ -449,21 +449,59 @@ def replay_states(states, extra):
 # ------------------------------------------------------------------------------------------------ histories on one object
 HIST_EXPECT = {'A': 'x', 'B': '[x,2*x-1]', 'Z': '0*x'}
 HIST_SQ = {'A': 'x^2', 'B': '[x^2,(2*x-1)^2]', 'Z': '(0*x)^2'}
+HIST_SHIFT = '0.0000001*(x-2)*(x-4)/3'              # 1e-7 at the first sample x = 1, nothing at x = 2, 4
 HIST_X = [1, 2, 4]
+HIST_FAILABLE = {'B': 1, 'M': 1}                    # documented as ignored by correlated comparers
 
 
 def hist_student(g, sub):
     e = HIST_EXPECT[g]
     ones = '[1,1]' if g == 'B' else '1'
+    if sub == 'eqshift':
+        return 'x+' + HIST_SHIFT if g == 'A' else '[x+%s,2*x-1]' % HIST_SHIFT
     return {'zero': '0*(%s)' % e, 'prop': '2*(%s)' % e, 'offset': '(%s)+%s' % (e, ones),
-            'linear': '2*(%s)+%s' % (e, ones), 'equal': e, 'sq': HIST_SQ[g]}[sub]
+            'linear': '2*(%s)+%s' % (e, ones), 'equal': e, 'sq': HIST_SQ[g], 'shape': '3'}[sub]
+
+
+def hist_grader(c, g, case, comparer):
+    """a grader named g of the history c, configured from its own (tolerance, policy) and sharing `comparer`,
+    either explicitly in its answers or through set_default_comparer"""
+    from mitxgraders import FormulaGrader, MatrixGrader
+    from engine.fixtures import ScriptedSampler
+    cfg = {'tolerance': TOL[case['tol']]}
+    if g in HIST_FAILABLE:
+        cfg['failable_evals'] = HIST_FAILABLE[g]
+    if c['obj'] == 'linear':
+        cls = MatrixGrader if g == 'B' else FormulaGrader
+        expect = HIST_EXPECT[g]
+        cfg.update(variables=['x'], samples=len(HIST_X), sample_from={'x': ScriptedSampler(script=list(HIST_X))})
+    else:
+        cls = MatrixGrader
+        expect = value_text(case['P'][0][0])
+        cfg['samples'] = 2
+    if cls is MatrixGrader:
+        p = case['policy']
+        cfg.update(max_array_dim=2, shape_errors=p['shapeErrors'], suppress_matrix_messages=p['suppress'],
+                   answer_shape_mismatch={'is_raised': p['raised'], 'msg_detail': None if p['detail'] == 'none' else p['detail']})
+    if c['share'] == 'default':
+        cls.set_default_comparer(comparer)
+        try:
+            grader = cls(answers=expect, **cfg)
+        finally:
+            cls.reset_default_comparer()
+        expect0 = grader.config['answers'][0]['expect']
+        expect0 = expect0[0] if isinstance(expect0, (tuple, list)) else expect0
+        if expect0['comparer'] is not comparer:
+            raise RuntimeError('set_default_comparer did not install the shared comparer object')
+        return grader
+    return cls(answers={'comparer': comparer, 'comparer_params': [expect]}, **cfg)
 
 
 def replay_history(c, out):
-    """one comparer OBJECT, one grader object per grader name sharing it, the calls of c.hist in order; every call is
-    compared with the outcome the specification allows for that call alone"""
-    from mitxgraders import FormulaGrader, MatrixGrader, LinearComparer, MatrixEntryComparer
-    from engine.fixtures import ScriptedSampler
+    """one comparer OBJECT, one grader object per grader name sharing it (the graders differ in tolerance and mismatch
+    policy), the calls of c.hist in order; every call is compared with the outcome the specification allows for that
+    call under the calling grader's own configuration"""
+    from mitxgraders import LinearComparer, MatrixEntryComparer
     res = {'n': 0, 'keys': [], 'bad': [], 'drift': [], 'config_errors': [], 'sample': None}
     try:
         if c['obj'] == 'linear':
@@ -480,16 +518,11 @@ def replay_history(c, out):
         case = entry['case']
         try:
             if call['g'] not in graders:
-                if c['obj'] == 'linear':
-                    cls = MatrixGrader if call['g'] == 'B' else FormulaGrader
-                    graders[call['g']] = cls(answers={'comparer': comparer, 'comparer_params': [HIST_EXPECT[call['g']]]},
-                                             variables=['x'], samples=len(HIST_X), tolerance=TOL[case['tol']],
-                                             sample_from={'x': ScriptedSampler(script=list(HIST_X))})
-                else:
-                    graders[call['g']] = MatrixGrader(answers={'comparer': comparer,
-                                                               'comparer_params': [value_text(case['P'][0][0])]},
-                                                      max_array_dim=2, tolerance=TOL[case['tol']])
-            student = hist_student(call['g'], call['sub']) if c['obj'] == 'linear' else value_text(case['S'][0])
+                graders[call['g']] = hist_grader(c, call['g'], case, comparer)
+            if c['obj'] == 'linear':
+                student = hist_student(call['g'], call['sub'])
+            else:
+                student = value_text(case['S'][0], 'plain', case['jit'], case['tol'])
         except Exception as e:
             res['config_errors'].append({'c': c, 'error': str(e), 'cls': type(e).__name__})
             return res
@@ -498,21 +531,21 @@ def replay_history(c, out):
         if obs['k'] == 'config':
             res['config_errors'].append({'c': c, 'error': obs['msg'], 'cls': obs['cls']})
             return res
-        obs['before'] = ['%s: %s' % d for d in done]
+        obs['before'] = ['%s (tolerance %s): %s' % d for d in done]
         if not any(matches(obs, a) for a in entry['allowed']):
             sig = signature(case, {}, entry['allowed'], obs, 'history')
             sig['history_on_same_comparer_object'] = obs['before']
             sig['grader'] = call['g']
-            if not sig['class'] and done:
-                sig['class'] = None
+            sig['comparer_shared_through'] = c['share']
             res['bad'].append({'sig': sig, 'case': case, 'hints': {}, 'before': obs['before'],
                                'history': {'c': c, 'upto': len(done) + 1}})
         elif not matches(obs, entry['impl']) and len(res['drift']) < 2:
             res['drift'].append('object model (Comparers!ImplOutcomeOnObject) predicts %s after %s for %r, code gave %s' % (
                 token_text(entry['impl']), obs['before'], student, obs_text(obs)))
-        done.append((call['g'], student))
+        done.append((call['g'], TOL[case['tol']], student))
         if res['sample'] is None and len(done) == len(c['hist']) and len(done) > 1:
-            res['sample'] = {'history_on_one_%s_comparer_object' % c['obj']: ['%s: %s' % d for d in done],
+            res['sample'] = {'history_on_one_%s_comparer_object_shared_%s' % (c['obj'], c['share']):
+                             ['%s (tolerance %s): %s' % d for d in done],
                              'last_allowed': [token_text(a) for a in entry['allowed']], 'last_observed': obs_text(obs)}
     return res
 
@@ -533,7 +566,8 @@ PARTS = ['cong', 'between', 'eigen', 'span', 'phase', 'entry', 'linear', 'shape'
 VARIANTS = [('flaw_ordering_between', 'between-real-typed-complex'), ('flaw_ordering_cong', 'congruence-real-typed-complex'),
             ('flaw_congruence_linear', 'congruence-wraparound'), ('flaw_span_residual', 'span-rank-deficient'),
             ('flaw_linear_squares', 'linear-complex-sum-of-squares'),
-            ('flaw_aliased_modes', None)]               # object state: a zero submission disables proportional / linear
+            ('flaw_aliased_modes', None),               # object state: a zero submission disables proportional / linear
+            ('flaw_sticky_tolerance', None)]            # object state: the first grader's tolerance is kept
 
 
 class Reporter(object):
@@ -992,9 +1026,9 @@ def gen_linear(rng, cfg=None, force=None):
     if force:
         nl = False
         a = {'zero_student': ((0, 0), 1), 'prop': (rng.choice([(2, 0), (-1, 0), (3, 0)]), rng.choice([1, 2])),
-             'lin': (rng.choice([(2, 0), (-1, 0), (3, 0)]), 1), 'off': ((1, 0), 1)}.get(force, a)
+             'lin': (rng.choice([(2, 0), (-1, 0), (3, 0)]), 1), 'off': ((1, 0), 1), 'eqshift': ((1, 0), 1)}.get(force, a)
         b = {'zero_student': ((0, 0), 1), 'prop': ((0, 0), 1), 'lin': (rng.choice([(1, 0), (-2, 0)]), 1),
-             'off': (rng.choice([(1, 0), (3, 0)]), 1)}.get(force, b)
+             'off': (rng.choice([(1, 0), (3, 0)]), 1), 'eqshift': ((0, 0), 1)}.get(force, b)
     equals = [1, 1] if rng.random() < 0.85 else rand_credit(rng, 0.6)
     c['cfg'] = cfg or {'equals': equals, 'proportional': rand_credit(rng), 'offset': rand_credit(rng), 'linear': rand_credit(rng)}
     if nl:
@@ -1021,11 +1055,15 @@ def gen_linear_group(rng):
     kinds = [rng.choice(['zero_student', 'zero_expected']), rng.choice(['prop', 'lin']), rng.choice(['prop', 'lin', 'off']),
              rng.choice(['zero_student', 'prop', 'lin', None])]
     rng.shuffle(kinds)
-    tol = rng.choice(['abs', 'pct'])
+    kinds.insert(rng.randrange(len(kinds) + 1), 'eqshift')
     group = []
     for k in kinds:
         c = gen_linear(rng, cfg=dict(cfg), force=k)
-        c['tol'] = tol
+        c['tol'] = rng.choice(['abs', 'pct', 'tiny'])                     # graders sharing the comparer differ in tolerance
+        if k == 'eqshift':                         # student = expected with the first sample shifted by 1e-7
+            c['tol'] = rng.choice(['abs', 'tiny'])
+            c['jit'] = 1
+            c['hints']['style'] = 'script'
         group.append(c)
     return group
 
@@ -1037,12 +1075,12 @@ def gen_entry_group(rng):
     for _ in range(rng.randint(1, 3)):
         c = gen_entry(rng)
         c['mode'] = dict(first['mode'])
-        c['tol'] = first['tol']
-        c['jit'] = 0
-        c['hints'] = {'via': 'explicit'}
         group.append(c)
-    first['hints'] = {'via': 'explicit'}
-    first['jit'] = 0
+    for c in group:                                # the graders sharing the comparer differ in tolerance kind and size
+        c['hints'] = {'via': 'explicit'}
+        c['tol'] = rng.choice(['abs', 'abs', 'zero', 'tiny', 'pct'])
+        c['jit'] = 1 if (c['tol'] != 'pct' and rng.random() < 0.6) else 0
+        c['policy'] = rng.choice([dict(DEFAULT_POLICY), dict(DEFAULT_POLICY, raised=False, detail='shape')])
     return group
 
 
